@@ -111,7 +111,8 @@ LEVELS = {"critical": 50, "fatal": 50, "error": 40, "warn": 30,
 JUNK_LEVELS = ["verbose", "5.0", "1e1", "ten", "info!", "--1", "0x10"]
 BOOL_TRUE = ["true", "yes", "on", "True", "YES", "On"]
 BOOL_FALSE = ["false", "no", "off", "False", "NO", "Off"]
-SIZES = {"100": 100, "1kb": 1024, "2KB": 2048, "1mb": 1048576, "0": 0}
+SIZES = {"100": 100, "1kb": 1024, "2KB": 2048, "1mb": 1048576, "0": 0,
+         "-1": -1, "-2kb": -2048}
 WHENS = {"S": 1, "M": 60, "H": 3600, "D": 86400, "midnight": 86400,
          "MIDNIGHT": 86400, "W0": 604800, "w6": 604800, "d": 86400,
          "h": 3600}
@@ -393,6 +394,10 @@ def model_handler(h):
         elif (of or iv) and not (when or ms):
             spec = "unspec"
         elif iv and not when:
+            spec = "unspec"
+        if (ms < 0 or of < 0 or iv < 0) and spec == "accept":
+            # a negative number for a FILE: the statement says nothing (on a
+            # standard stream it is a rotation option like any other)
             spec = "unspec"
         out["kind"] = "timed" if when else ("size" if ms else "plain")
     if path not in ("STDOUT", "STDERR"):
@@ -711,10 +716,10 @@ def gen_handler(rng, k, p_bad=0.3):
     r = rng.random()
     bad = rng.random() < p_bad
     if bad:
-        for key, vals in (("max_size", ["100", "1kb", "0"]),
-                          ("old_files", ["0", "1", "2"]),
+        for key, vals in (("max_size", ["100", "1kb", "0", "-1", "-2kb"]),
+                          ("old_files", ["0", "1", "2", "-1"]),
                           ("when", ["D", "H"]),
-                          ("interval", ["0", "1", "2"])):
+                          ("interval", ["0", "1", "2", "-1"])):
             if rng.random() < 0.4:
                 h[key] = rng.choice(vals)
     elif std or r < 0.35:
